@@ -160,15 +160,32 @@ PROPS = {
              "before and between comparisons, clones; non-trivial = an observer call separates two comparisons",
         nontrivial=lambda p: True,
     ),
+    "C18": dict(
+        gens=[dict(how="conc", cfg="Gen_Conc2", tier="both"),
+              dict(how="conc", cfg="Gen_Conc3", simulate=1500, tier="quick"),
+              dict(how="conc", cfg="Gen_Conc3", simulate=20000, tier="thorough"),
+              dict(how="conc_rand", count=600, tier="quick"), dict(how="conc_rand", count=20000, tier="thorough")],
+        tv_props=["C18", "DRIFT"],
+        mc=[dict(module="MC_Conc.tla", cfg="MC_Conc_2x2"), dict(module="MC_Conc.tla", cfg="MC_Conc_3x1"),
+            dict(module="MC_Conc.tla", cfg="MC_Conc_bug_insert", expect="WriteOnce")],
+        must_fire=["C18.answer_is_sequential", "C18.cached_value_never_replaced", "C18.no_deadlock"],
+        rule="every interleaving (at the granularity of the crate's schedule points) of all pairs of one-call threads over a shared "
+             "CachedSource, a parent of a clone of it with a yielding child and a ReplaceSource with a stale sort index, enumerated "
+             "by TLC from Conc.tla and replayed by a deterministic scheduler; three-thread behaviours sampled by TLC simulation; "
+             "random op lists under the scheduler's random choice; non-trivial = two threads touch the same object",
+        nontrivial=lambda p: True,
+    ),
     "C19": dict(
-        gens=[tlc("c16"), tlc("c01"), rand("ropes", 1000, "quick"), rand("wild", 400, "quick"), rand("stream_any", 300, "quick"),
+        gens=[tlc("c16"), tlc("c01"), dict(how="conc", cfg="Gen_Conc2", tier="both"),
+              rand("ropes", 1000, "quick"), rand("wild", 400, "quick"), rand("stream_any", 300, "quick"),
               rand("ropes", 60000, "thorough"), rand("wild", 30000, "thorough"), rand("stream_any", 20000, "thorough")],
         tv_props=["C19"],
         must_fire=["C19.preconditions_hold", "C19.rope.slice.same_piece", "C19.rope.slice.pieces",
                    "C19.with_indices.substring", "C19.str.byte_slice_unchecked", "C19.encoder.full.drain",
                    "C19.encoder.lines.drain", "C19.replace.extend_replacement_borrow", "C19.cached.extend_map_borrow",
                    "C19.rope.unchecked.light", "C19.rope.unchecked.same_piece", "C19.rope.unchecked.same_piece_range",
-                   "C19.rope.unchecked.pieces", "C19.rope.unchecked.first_piece_range", "C19.rope.unchecked.last_piece_range"],
+                   "C19.rope.unchecked.pieces", "C19.rope.unchecked.first_piece_range", "C19.rope.unchecked.last_piece_range",
+                   "C19.cached_map_borrow_stays_valid"],
         also_release=False,
         rule="the rope programs of C16 (including piece-less and empty-piece ropes), the trees of C01 with multi-byte text and wild "
              "maps; every unsafe site must be reached and its precondition (evaluated by a guarded probe immediately before the "
